@@ -209,6 +209,12 @@ example : (∀ i j, i < C06.exA.nrows → j < C06.exA.nrows →
 example : ((ilut (exP 2 0) 1).applyPre C06.exF C06.exA #[3, 2, 2] #[7, -3, 5] #[0, 0, 0]).1 = #[1, 1, 1] := by
   decide +kernel
 
+/-- the diagonal occupies one of the `up = ⌊p · lenU⌋` places of the `U` part: with `p = 1` a tridiagonal matrix keeps **no**
+upper entry (the known observation about the fill quota), although the exact factors would fit `p · lenU` entries -/
+example : (match ilutFactorT (exP 1 0) C06.exA with
+    | .ok (F, R) => F.U.rows.all (·.isEmpty) && R.any (fun d => !d.dropU.isEmpty) | _ => false) = true := by
+  decide +kernel
+
 /-- the outcome `tie`: `p = 1`, two upper entries of equal magnitude, one place -/
 example : ilutFactor (exP 1 0) ⟨3, #[[(0, 4), (1, 1), (2, -1)], [(0, 1), (1, 4)], [(0, 1), (2, 4)]]⟩ = .tie := by
   decide +kernel
